@@ -72,6 +72,8 @@ func init() {
 			c.min("R-NILVALUE", 7)
 			c.ruleValueCarry(ownExempt)
 			c.min("R-VALUECARRY", 6)
+			c.ruleNextKey()
+			c.min("R-NEXTKEY", 4)
 		})
 }
 
@@ -89,6 +91,8 @@ func init() {
 			c.ruleVariant("pkg/trie/triedb/codec")
 			c.min("R-VARIANT/table", 7)
 			c.ruleTriedb()
+			c.ruleCommitOrder()
+			c.min("R-COMMITORDER", 1)
 			c.min("R-KEYMATCH/triedb", 3)
 			c.min("R-NEWVALUE", 3)
 		})
@@ -143,6 +147,8 @@ func init() {
 			c.min("R-THRESH", 10)
 			c.ruleVariant("pkg/trie/node")
 			c.min("R-VARIANT/table", 7)
+			c.ruleVariantSelect()
+			c.min("R-VARIANT/select", 5)
 			c.ruleNodeEncodeOrder()
 			c.min("R-ENCORDER", 7)
 			c.ruleOwn(ownExempt)
